@@ -26,12 +26,13 @@ fn canonicalize_slice(
         slice_offset
     };
 
+    // An offset before the beginning selects nothing
+    if slice_offset < 0 {
+        return (vec_length as usize, 0);
+    }
+
     // Cap slice_length
-    let slice_length = if slice_offset + slice_length > vec_length {
-        vec_length - slice_offset
-    } else {
-        slice_length
-    };
+    let slice_length = cmp::min(slice_length, vec_length - slice_offset);
 
     (slice_offset as usize, slice_length as usize)
 }
@@ -83,7 +84,7 @@ impl Filter for SliceFilter {
             ))
         } else {
             let input = input.to_kstr();
-            let (offset, length) = canonicalize_slice(offset, length, input.len());
+            let (offset, length) = canonicalize_slice(offset, length, input.chars().count());
             Ok(Value::scalar(
                 input.chars().skip(offset).take(length).collect::<String>(),
             ))
